@@ -95,6 +95,7 @@ type vfC12Case struct {
 	Gv      vfC12Val      `json:"gv"`
 	Dec     string        `json:"dec"`
 	Spec    vfC12Enc      `json:"spec"`
+	Spec2   vfC12Enc      `json:"spec2"` // a second conformant encoding (short UDT values), st "err" if there is none
 	Targets []vfC12Target `json:"targets"`
 }
 
@@ -1140,6 +1141,9 @@ func vfC12RunCase(c *vfC12Case) (vfC12Obj, *vfC12Kept) {
 		}
 		if c.Spec.St == "ok" || c.Spec.St == "null" {
 			put("spec", specData) // Unmarshal(Enc(v)), the specification's bytes
+		}
+		if c.Spec2.St == "ok" {
+			put("spec2", append(make([]byte, 0, len(c.Spec2.B)+1), vfC12Bytes(c.Spec2.B)...)) // UDT values with absent trailing fields
 		}
 		if res["st"] == "ok" || res["st"] == "null" {
 			put("real", data) // Unmarshal(Marshal(v)), the driver's own bytes
